@@ -396,6 +396,15 @@ def run_history(expr, events, want_fresh=True):
             stp["settings_ok"] = all(obs[k] == cur[k] for k in cur)
             stp["keys"] = w.keys()
             stp["bad"] = [[i_, p_, y_] for (i_, p_, y_) in w.bad_entries(tol=TOL)]
+            if kind == "q" and want_fresh:
+                # a NEW invalid entry on the queried object: is it just as invalid on a fresh copy after the same query
+                # (the class's own numerics, e.g. a Lanczos by-product on a matrix with close eigenvalues: no cache effect)?
+                prev = rec["steps"][-1] if rec["steps"] else None
+                prev_bad = {json.dumps(prev["keys"][b_[0]][b_[1]]) for b_ in prev["bad"]
+                            if b_[0] == ev[1] and b_[1] < 990} if prev else set()
+                if any(b_[0] == ev[1] and b_[1] < 990 and json.dumps(stp["keys"][b_[0]][b_[1]]) not in prev_bad
+                       for b_ in stp["bad"]):
+                    stp["bad_on_fresh"] = fresh_bad_keys(w, ev[1], ev[2], si)
             rec["steps"].append(stp)
         rec["opaque"] = w.opaque
         rec["nobj"] = len(w.objs)
@@ -529,6 +538,23 @@ def fresh_query(w, i, q, si, precond_env=None):
     w2.O = w.O
     w2.objs, w2.ids, w2.dense, w2.tensors = [clone], {id(clone): 0}, [w.dense[i]], []
     return w2.do_query(0, q, seed=si)
+
+
+def fresh_bad_keys(w, i, q, si):
+    """keys (structural form, JSON) of the cache entries that are invalid on a FRESH copy of object i after the same
+    query under the same settings and seed"""
+    from . import c12_world as W
+    try:
+        clone = w.objs[i].clone()
+        w2 = object.__new__(W.World)
+        w2.O = w.O
+        w2.objs, w2.ids, w2.dense, w2.tensors = [clone], {id(clone): 0}, [w.dense[i]], []
+        w2._entry_memo, w2._keep = {}, []
+        w2.do_query(0, q, seed=si)
+        ks = w2.keys()[0]
+        return [json.dumps(ks[p_]) for (o_, p_, _) in w2.bad_entries(tol=TOL) if o_ == 0 and p_ < 990]
+    except Exception:
+        return []
 
 
 def fresh_derive_raises(w, i, d, si):
@@ -950,7 +976,8 @@ def problems_of(label, rec):
                 out.append((si, {"cause": choice_cause, "op": op, "fail": "entry", "entry": kk[1][1], "root": label,
                                  "method": chosen, "consequence": False}, why))
                 continue
-            if ev[0] == "q" and bi == tgt and stp.get("valid") is False and stp.get("fresh_valid") is False:
+            if ev[0] == "q" and bi == tgt and ((stp.get("valid") is False and stp.get("fresh_valid") is False)
+                                               or json.dumps(kk) in (stp.get("bad_on_fresh") or [])):
                 # the query's own answer is invalid on a fresh clone as well: the class's factorization itself is
                 # wrong (C04-C06), the entry it leaves behind is no cache effect (recorded, so that the triage knows the
                 # step is explained; never reported: OUTSIDE_HYPOTHESES)
